@@ -19,7 +19,8 @@
      18 a published checkpoint does not hold exactly the positions its runners acknowledged (one per split)
    Codes 1..9: against the model / the observation itself:
       1 the final state differs from the failure-free run of the protocol model `Sys` over the same input
-      9 the run did not complete (no final state observed for some key): no verdict *)
+      9 the run did not complete (no final state observed for some key): no verdict
+   Code 101: known finding, see check_case. *)
 From Coq Require Import List NArith Bool.
 From RV Require Import Model.Sys.
 Import ListNotations.
@@ -37,7 +38,8 @@ Inductive case :=
        (timeline : list tev)
        (invs : list inv)                                 (* in observation order *)
        (acked : list (N * list (N * N)))                 (* checkpoint id, (split, position) acknowledged by runners *)
-       (completed : bool).
+       (completed : bool)
+       (survivor : bool).                                (* some operator was re-deployed in place in a later generation *)
 
 (* ---------- helpers *)
 Definition memN (x : N) (l : list N) : bool := existsb (N.eqb x) l.
@@ -187,15 +189,25 @@ Definition check_final (splits : list (list (N * N))) (is : list inv) : list N :
       | Some st => if list_eqb st (sort (Sys.state_of model k)) then [] else [1]
       end) (keys_of splits).
 
+(* KNOWN FINDING (KNOWN_FINDINGS.txt, code 101): when only a subset of the workers dies, the job re-deploys the
+   surviving workers IN PLACE (same processes). SourceRunner.HandleDeploy starts a second event loop without stopping
+   the first and Operator.HandleDeploy opens a second DKV over the first; records are then applied out of split order,
+   lost or applied against a stale cut. In exactly that input class (survivor = true) the exactly-once codes are
+   reported as the single code 101; everywhere else, and for codes 17/18 in every class, nothing is masked. *)
+Definition eo_codes : list N := [1; 9; 10; 11; 12; 13; 14; 15; 16].
+
 Definition check_case (c : case) : list N :=
   match c with
-  | Case splits tl is acked completed =>
-      dedup_codes (
+  | Case splits tl is acked completed survivor =>
+      let codes := dedup_codes (
         (if completed then [] else [9]) ++
         flat_map (check_inv splits) is ++
         check_flow splits tl [] is ++
         check_timeline [] None tl acked ++
-        check_final splits is)
+        check_final splits is) in
+      if survivor then
+        (if existsb (fun c => memN c eo_codes) codes then [101] else []) ++ filter (fun c => negb (memN c eo_codes)) codes
+      else codes
   end.
 
 Definition run (cases : list (N * case)) : list (N * N) :=
